@@ -95,37 +95,38 @@ func (v c19View) coq() string {
 }
 
 type c19Tx struct {
-	Kind          string  `json:"kind"`
-	Type          int     `json:"type"`
-	From          string  `json:"from"`
-	To            string  `json:"to"` // value recipient (To, or the created address)
-	Create        bool    `json:"create"`
-	Nonce         uint64  `json:"nonce"`
-	Gas           uint64  `json:"gas"`
-	Price         string  `json:"gas_price"`
-	Cap           string  `json:"fee_cap"`
-	Tip           string  `json:"tip_cap"`
-	Value         string  `json:"value"`
-	Intr          uint64  `json:"intrinsic_gas"`
-	Blocked       bool    `json:"recipient_blocked"`
-	Data          string  `json:"data"`
-	OGas          uint64  `json:"oracle_evm_gas"`
-	ORefund       uint64  `json:"oracle_refund_counter"`
-	OFailed       bool    `json:"oracle_failed"`
-	OWorld        string  `json:"oracle_world"`
-	Pre           c19View `json:"pre"`
-	Code          uint32  `json:"code"`
-	HasResp       bool    `json:"has_response"`
-	GasUsed       uint64  `json:"gas_used"`
-	Failed        bool    `json:"vm_failed"`
-	VMError       string  `json:"vm_error"`
-	Post          c19View `json:"post"`
-	Supply0       string  `json:"supply_pre"`
-	Supply1       string  `json:"supply_post"`
-	AbciGasUsed   int64   `json:"abci_gas_used"`
-	AbciGasWanted int64   `json:"abci_gas_wanted"`
-	Codespace     string  `json:"codespace"`
-	Log           string  `json:"log,omitempty"`
+	Kind            string  `json:"kind"`
+	Type            int     `json:"type"`
+	From            string  `json:"from"`
+	To              string  `json:"to"` // value recipient (To, or the created address)
+	Create          bool    `json:"create"`
+	Nonce           uint64  `json:"nonce"`
+	Gas             uint64  `json:"gas"`
+	Price           string  `json:"gas_price"`
+	Cap             string  `json:"fee_cap"`
+	Tip             string  `json:"tip_cap"`
+	Value           string  `json:"value"`
+	Intr            uint64  `json:"intrinsic_gas"`
+	Blocked         bool    `json:"recipient_blocked"`
+	FeeAboveBalance bool    `json:"fee_above_balance"`
+	Data            string  `json:"data"`
+	OGas            uint64  `json:"oracle_evm_gas"`
+	ORefund         uint64  `json:"oracle_refund_counter"`
+	OFailed         bool    `json:"oracle_failed"`
+	OWorld          string  `json:"oracle_world"`
+	Pre             c19View `json:"pre"`
+	Code            uint32  `json:"code"`
+	HasResp         bool    `json:"has_response"`
+	GasUsed         uint64  `json:"gas_used"`
+	Failed          bool    `json:"vm_failed"`
+	VMError         string  `json:"vm_error"`
+	Post            c19View `json:"post"`
+	Supply0         string  `json:"supply_pre"`
+	Supply1         string  `json:"supply_post"`
+	AbciGasUsed     int64   `json:"abci_gas_used"`
+	AbciGasWanted   int64   `json:"abci_gas_wanted"`
+	Codespace       string  `json:"codespace"`
+	Log             string  `json:"log,omitempty"`
 }
 
 func c19U(u uint64) string { return cZbig(new(big.Int).SetUint64(u)) }
@@ -371,6 +372,9 @@ func (s *c19S) deliver(sp c19Spec, base *big.Int) (c19Tx, error) {
 	}
 	rec.OGas, rec.ORefund, rec.OFailed, rec.OWorld = s.oracle(msg, from, fees)
 	rec.Pre = s.view(from, rcpt)
+	if pb, ok := new(big.Int).SetString(rec.Pre.SBal, 10); ok && fees.Sign() > 0 && pb.Cmp(fees) < 0 {
+		rec.FeeAboveBalance = true
+	}
 	rec.Supply0 = s.supply()
 	res := s.env.App.DeliverTx(abci.RequestDeliverTx{Tx: bz})
 	rec.Code = res.Code
@@ -512,23 +516,25 @@ func runC19(a *Args) error {
 }
 
 func (s *c19S) topUp() {
+	// keep the pool solvent over long runs: value leaks to fresh addresses, contracts and the fee collector, so an
+	// account that fell below 1e18 is refilled with freshly minted coins (between blocks, outside any case; the
+	// supply is observed per transaction only)
 	ctx := s.env.Ctx
-	rich := 0
-	for i := 1; i < 6; i++ {
-		if s.bal(ctx, s.addrs[i].Bytes()).Cmp(s.bal(ctx, s.addrs[rich].Bytes())) > 0 {
-			rich = i
-		}
-	}
 	one := new(big.Int).Exp(big.NewInt(10), big.NewInt(18), nil)
 	for i := 0; i < 6; i++ {
-		if i != rich && s.bal(ctx, s.addrs[i].Bytes()).Cmp(one) < 0 && s.bal(ctx, s.addrs[rich].Bytes()).Cmp(new(big.Int).Mul(one, big.NewInt(3))) > 0 {
-			coins := sdk.Coins{sdk.NewCoin(utils.BaseDenom, sdkmath.NewIntFromBigInt(one))}
-			if err := s.env.App.BankKeeper.SendCoins(ctx, s.addrs[rich].Bytes(), s.addrs[i].Bytes(), coins); err != nil {
+		if s.bal(ctx, s.addrs[i].Bytes()).Cmp(one) < 0 {
+			coins := sdk.Coins{sdk.NewCoin(utils.BaseDenom, sdkmath.NewIntFromBigInt(new(big.Int).Mul(one, big.NewInt(4))))}
+			if err := s.env.App.BankKeeper.MintCoins(ctx, evmtypes.ModuleName, coins); err != nil {
+				panic(err)
+			}
+			if err := s.env.App.BankKeeper.SendCoinsFromModuleToAccount(ctx, evmtypes.ModuleName, s.addrs[i].Bytes(), coins); err != nil {
 				panic(err)
 			}
 		}
 	}
 }
+
+const c19TagBlockGas = "kf-C19-rejected-consumes-block-gas"
 
 var c19Dec = sdk.MustNewDecFromStr
 
@@ -579,6 +585,12 @@ func (s *c19S) oneCase(c int) error {
 	case 2:
 		blim = 100_000
 	}
+	directed := c == 0
+	if directed {
+		// directed scenario of finding F2: a transaction refused for "balance below the fee" still consumes block gas,
+		// and an unrelated transaction that exactly fits the block is pushed over the limit
+		noBase, base, mgp, mult, blim = false, big.NewInt(1_000_000_000), sdk.ZeroDec(), sdk.OneDec(), 100_000
+	}
 	s.setFeeMarket(noBase, base, mgp, mult)
 	s.setBlockMaxGas(blim)
 	env.NextBlock(time.Second)
@@ -601,6 +613,9 @@ func (s *c19S) oneCase(c int) error {
 	if forcePair && n < 2 {
 		n = 2
 	}
+	if directed {
+		n, forcePair = 2, false
+	}
 	cs := c19Case{Suite: "c19", Height: env.Header.Height, Base: baseFee.String(), MGP: mgp.BigInt().String(), Mult: mult.BigInt().String(), BLim: blim}
 	seen := map[string]bool{}
 	var involved []common.Address
@@ -621,6 +636,21 @@ func (s *c19S) oneCase(c int) error {
 			force = 20 // call-store3-clear: refund counter 14400 > gasUsed/5
 		}
 		specs[i] = s.genSpec(baseFee, mgp, blim, note, force)
+	}
+	if directed {
+		victim := s.addrs[3]
+		note(victim)
+		specs[0] = func() c19Spec { // fee one unit above what sender 1 owns
+			bal := s.bal(env.Ctx, s.addrs[1].Bytes())
+			price := new(big.Int).Add(new(big.Int).Quo(bal, big.NewInt(50_000)), big.NewInt(1))
+			return c19Spec{kind: "transfer-eoa", typ: 0, sender: 1, to: &victim, nonce: uint64(s.seq(env.Ctx, s.addrs[1].Bytes())),
+				gas: 50_000, price: price, cap: price, tip: price, value: big.NewInt(0)}
+		}
+		specs[1] = func() c19Spec { // gas limit = block limit, multiplier 1: gasUsed = 100000 fits an empty block exactly
+			price := new(big.Int).Add(baseFee, big.NewInt(1))
+			return c19Spec{kind: "transfer-eoa", typ: 0, sender: 2, to: &victim, nonce: uint64(s.seq(env.Ctx, s.addrs[2].Bytes())),
+				gas: 100_000, price: price, cap: price, tip: price, value: big.NewInt(12345)}
+		}
 	}
 	for _, a := range s.addrs {
 		note(a)
@@ -650,6 +680,7 @@ func (s *c19S) oneCase(c int) error {
 	cs.Coll = s.bal(env.Ctx, s.coll).String()
 	cs.BGas = s.blockGas()
 	cs.World = s.world(env.Ctx)
+	tagged := false
 	for i := 0; i < n; i++ {
 		sp := specs[i]()
 		rec, err := s.deliver(sp, baseFee)
@@ -657,6 +688,12 @@ func (s *c19S) oneCase(c int) error {
 			return err
 		}
 		cs.Txs = append(cs.Txs, rec)
+		if rec.FeeAboveBalance && !tagged {
+			// input shape of finding F2 (narrow known-finding match: suite + check "blockgas" + this tag)
+			tagged = true
+			cs.Tags = append(cs.Tags, c19TagBlockGas)
+			s.w.Count("shape=fee-above-balance")
+		}
 		s.w.Count("kind=" + rec.Kind)
 		s.w.Count(fmt.Sprintf("type=%d", rec.Type))
 		switch {
